@@ -337,6 +337,7 @@ def run(F, rep, tier):
     c07.rule_r5(F, rep)      # super / +: inside a field resolve from the layer the field was found in
     from . import visibility
     visibility.rule(F, rep, "C07.R4")
+    visibility.rule_partition(F, rep, "C07.R6")
     rep.assume("value-level semantics (arithmetic results, environments, defaults, inheritance) are not decided: "
                "no reference interpreter is in reach of static analysis")
     rep.trust("Jsonnet specification operator typing, transcribed in rules/c02.py")
